@@ -36,6 +36,8 @@ FUNCS = [
  ("undelegate", "(a : Acct) (v : AVal) (d : Denom) (x : Int)", "undelegate a v d x"),
  ("redelegate", "(a : Acct) (s t : AVal) (d : Denom) (x : Int)", "redelegate a s t d x"),
  ("completeRedelegations", "", "completeRedelegations"),
+ ("payEntry", "(t : Time) (e : Undel)", "payEntry t e"),
+ ("payBucket", "(b : UndelKey × List Undel)", "payBucket b"),
  ("completeUnbondings", "", "completeUnbondings"),
  ("slashRedelegations", "(v : ValId) (f : Dec)", "slashRedelegations v f"),
  ("slashUndelegations", "(v : ValId) (f : Dec)", "slashUndelegations v f"),
@@ -79,8 +81,11 @@ CONFIGS = {
  "Params": ("w.params", "pframe",
             {"setParams", "setLastRewardClaimTime", "deductAssetsWithTakeRate", "deductAssetsHook", "endBlocker", "msgUpdateParams"}),
  "Undel": ("(w.undelQueue, w.undelIndex)", "uframe",
-           {"queueUndelegation", "undelegate", "msgUndelegate", "completeUnbondings", "slashUndelegations", "slashValidator",
+           {"payEntry", "payBucket", "queueUndelegation", "undelegate", "msgUndelegate", "completeUnbondings", "slashUndelegations", "slashValidator",
             "beforeValidatorSlashed", "endBlocker"}),
+ "UQ": ("w.undelQueue", "qframe",
+        {"payBucket", "queueUndelegation", "undelegate", "msgUndelegate", "completeUnbondings", "slashUndelegations", "slashValidator",
+         "beforeValidatorSlashed", "endBlocker"}),
  "Redel": ("(w.redels, w.redelQueue, w.redelIndex)", "rframe",
            {"queueRedelegation", "addRedelegation", "redelegate", "msgRedelegate", "completeRedelegations", "endBlocker"}),
 }
@@ -156,6 +161,17 @@ theorem toPresR {m : M α} (h : Fr m) (J : _ → Prop) : PresR (fun w => J (π w
   show J (π (m w).2)
   rw [h.frame w]
   exact hw
+
+/-- as a Hoare triple: any predicate of π is carried through, on success and on failure -/
+theorem toTriple {m : M α} (h : Fr m) (J : _ → Prop) :
+    Triple (fun w => J (π w)) m (fun _ w => J (π w)) (fun w => J (π w)) := by
+  intro w hw
+  have h1 := h.frame w
+  rcases hmw : m w with ⟨r, w'⟩
+  rw [hmw] at h1
+  cases r with
+  | ok a => show J (π w'); rw [h1]; exact hw
+  | error e => show J (π w'); rw [h1]; exact hw
 
 macro "fr_walk" : tactic => `(tactic| repeat' (first
   | apply pure | apply getW | apply throwE | apply panicE | apply liftE
